@@ -506,6 +506,35 @@ pub fn run(ctx: &mut Ctx) {
         },
         check_record,
     );
+    // macro definitions with 0-3 parameters invoked with every kind of argument list: too few, too many, empty,
+    // blank, spanning lines, comments, nested invocations, unbalanced
+    ctx.run_prop(
+        "macro_invocations",
+        6_000 * scale,
+        || (proptest::collection::vec((0usize..4, 0usize..6), 1..4), proptest::collection::vec((0usize..4, proptest::collection::vec(0usize..12, 0..5), 0usize..5), 1..5), config_strategy()),
+        |(defs, calls, c): &(Vec<(usize, usize)>, Vec<(usize, Vec<usize>, usize)>, (usize, u8, bool, u8))| {
+            const PARAMS: [&str; 3] = ["a", "b", "c"];
+            const BODIES: [&str; 6] = ["P0 + P1 + P2", "P2 P1 P0", "P0 ## P1", "(P1)", "M0(P0, P1)", "1"];
+            const ARGS: [&str; 12] = ["", " ", "\n", "1", "x y", "(1, 2)", "/* c */", "M0(1, 2)", "M1()", "// c\n", "\\\n", ")"];
+            const CLOSE: [&str; 5] = [")", ")", " )", "", "))"];
+            let mut text = String::new();
+            for (k, (np, body)) in defs.iter().enumerate() {
+                let params: Vec<&str> = PARAMS[..(*np).min(3)].to_vec();
+                let mut b = BODIES[*body].to_string();
+                for (i, p) in PARAMS.iter().enumerate() {
+                    // parameters the macro does not have stay as plain identifiers
+                    b = b.replace(&format!("P{}", i), if i < params.len() { p } else { "q" });
+                }
+                text.push_str(&format!("#define M{}({}) {}\n", k, params.join(", "), b));
+            }
+            for (m, args, close) in calls {
+                let list: Vec<&str> = args.iter().map(|a| ARGS[*a]).collect();
+                text.push_str(&format!("int v{} = M{}({}{};\n", text.len(), m % defs.len().max(1), list.join(","), CLOSE[*close]));
+            }
+            wrap("macro_invocation", text, c)
+        },
+        check_record,
+    );
     // constant expressions with boundary operands in every constant position (the folding paths of the evaluator)
     ctx.run_prop(
         "constant_expressions",
